@@ -4,7 +4,7 @@ From RU Require Import Base.Prelude Base.Utf8 Model.AsciiSet Gen.Tables Model.Pe
   Model.HostT Model.UrlRecord Model.Parser Model.Setters Model.WF
   Proofs.ListN Proofs.C03_WF Proofs.C06_List Proofs.C06_WFI Proofs.C06_Tail Proofs.C06_Steps Proofs.C06_Suffix
   Proofs.C06_Front Proofs.C06_Atomic Proofs.C06_FragQuery Proofs.C06_Port Proofs.C06_Cred Proofs.C06_Scheme
-  Proofs.C06_HostNone Proofs.C06_Host.
+  Proofs.C06_HostNone Proofs.C06_Host Proofs.C06_PathParser Proofs.C06_Path Proofs.C06_Segments.
 
 Ltac splits := repeat match goal with |- _ /\ _ => split end.
 
@@ -366,6 +366,41 @@ Proof.
   - intros s u' st E. exact (set_scheme_wf u s u' st H E).
   - intros u' st X1 X2 E. exact (set_host_none_wf u u' st H X1 X2 E).
   - intros h u' st Hd X1 X2 E. exact (set_ip_host_wf u h u' st H Hd X1 X2 E).
+Qed.
+
+(* set_path and path_segments_mut sessions on a URL with an authority (outside F-C02-3: opaque path,
+   F-C02-8 / F-C03-5: authority-less URL) *)
+Lemma set_path_wf u p u' : wfh u -> has_authority_b u = true -> usv_list p -> auth_end_ok u ->
+  set_path dbg u p = Some u' -> wfh u'.
+Proof.
+  intros [W HT] Ha Hp Hx E. destruct (set_path_ok dbg u p u' W HT Ha Hp Hx E) as (W' & HT' & _). split; assumption.
+Qed.
+
+Lemma path_segments_session_wf u ops u' st : wfh u -> has_authority_b u = true -> Forall psm_op_usv ops ->
+  path_segments_session dbg u ops = Some (u', st) -> wfh u'.
+Proof.
+  intros [W HT] Ha Hops E. destruct st.
+  - destruct (path_segments_session_ok dbg u ops u' W HT Ha Hops E) as (W' & HT' & _). split; assumption.
+  - rewrite (path_segments_session_atomic dbg u ops u' _ E) by discriminate. split; assumption.
+  - rewrite (path_segments_session_atomic dbg u ops u' _ E) by discriminate. split; assumption.
+Qed.
+
+Theorem path_all u : wfh u -> has_authority_b u = true ->
+  (forall p u', usv_list p -> auth_end_ok u -> set_path dbg u p = Some u' ->
+     wfh u' /\ same_front dbg u u' /\ query dbg u' = query dbg u /\ fragment dbg u' = fragment dbg u
+     /\ exists P, path u' = Some P /\ new_path_ok P
+        /\ exists hh rem, parse_path_start dbg CSetter (scheme_type_of (nfirstn (scheme_end u) (ser u))) true
+                            (nfirstn (path_start u) (ser u)) p
+                          = POk (nfirstn (path_start u) (ser u) ++ P, hh, rem))
+  /\ (forall ops u', Forall psm_op_usv ops -> path_segments_session dbg u ops = Some (u', SOk) ->
+     wfh u' /\ same_front dbg u u' /\ query dbg u' = query dbg u /\ fragment dbg u' = fragment dbg u
+     /\ exists P, path u' = Some P /\ new_path_ok P).
+Proof.
+  intros [W HT] Ha. split.
+  - intros p u' Hp Hx E. destruct (set_path_ok dbg u p u' W HT Ha Hp Hx E) as (W' & HT' & A & B & C & D).
+    split; [split; assumption|]. splits; assumption.
+  - intros ops u' Hops E. destruct (path_segments_session_ok dbg u ops u' W HT Ha Hops E) as (W' & HT' & A & B & C & D).
+    split; [split; assumption|]. splits; assumption.
 Qed.
 
 End Main.
